@@ -2,6 +2,11 @@
 
 COMPONENTS = {
     "repair": "comp_repair",
+    "dem": "comp_ops:Dem",
+    "dex": "comp_ops:Dex",
+    "mask": "comp_ops:Mask",
+    "des": "comp_ops:Des",
+    "variant": "comp_ops:Variant",
 }
 
 TRUSTED_BASE = [
@@ -12,11 +17,43 @@ TRUSTED_BASE = [
     "numpy.random primitives are recorded by wrapping module attributes; their distribution is not modelled",
 ]
 
+OPS_RULE = ("structured random cases from one PRNG seeded by VERIF_SEED: zero-width / tiny / wide / integer / asymmetric "
+            "ranges, 20-30% of coordinates exactly on a bound, converged populations, F in {None, 0, scalar, (lo,hi), (a,a)}, "
+            "gamma in {None, 1e-4, 1, 1.9, random}, CR in {0, 1, grid, random}, six selections x 1..3 differences x {bin, exp} "
+            "x four repairs (+ unbounded), with/without PM, both calling conventions; distinct = hash of (config, inputs, "
+            "outputs); non-trivial = ")
+
 PROPERTIES = {
+    "C01": {
+        "components": [("variant", 400, 12000), ("dem", 250, 8000), ("dex", 150, 4000), ("repair", 150, 4000)],
+        "rule": OPS_RULE + "the call returned offspring (variant/dem), the mask is observable (dex), a bound is violated (repair)",
+        "explanation": "theorem offspring_in_bounds: every offspring coordinate is in [xl,xu] for all F, gamma, differences, masks and draws in [0,1); correspondence: selection matrix, repaired mutants and trials equal the Lean model bit for bit; the oracle checks the real floats against the bounds",
+        "assumptions": ["parents in bounds", "draws in [0,1)", "pymoo PM keeps in-bounds vectors in bounds (checked on every record)",
+                        "IEEE rounding of bounce-back/rand-init cannot cross a bound (argued in DESIGN.md, checked on every record)"],
+    },
+    "C09": {
+        "components": [("des", 600, 20000), ("variant", 200, 6000)],
+        "rule": OPS_RULE + "at least one re-selection round happened (des)",
+        "explanation": "theorems fillCols_spec / *_spec / ranked_spec: drawn parents valid, distinct, differ from target (and best), documented columns, ranked = permutation with best base and directed pairs; correspondence: parent matrix equal to the model's on the recorded choice() vectors, call signatures included",
+        "assumptions": ["partial correctness: the re-selection loops terminate with probability one, not certainly",
+                        "population index 0 is the top-ranked individual (established by the survival operators, C02/C04)"],
+    },
+    "C10": {
+        "components": [("dem", 500, 16000), ("variant", 250, 8000)],
+        "rule": OPS_RULE + "the call returned mutants",
+        "explanation": "theorems mutant_formula, dither_range, jitter_range, nParents_eq, pairs_get; correspondence: mutants and differentials bit-equal to the model (every F / gamma / n_parents / calling convention)",
+        "assumptions": ["draws in [0,1)"],
+    },
     "C11": {
-        "components": [("repair", 400, 12000)],
-        "rule": "structured random matrices (n,d in 1..6; zero-width, tiny, wide, integer and asymmetric ranges; none/lower/upper/mixed/all/far violations; 20-30% of entries exactly on a bound), four strategies, direct function and REPAIRS registry; non-trivial = at least one violating entry; distinct = hash of (config, inputs, outputs)",
-        "explanation": "theorems: repair is the identity on non-violating coordinates and each strategy's placement; correspondence: bitwise equality of the repaired matrix with the Lean model executed at Float on the same recorded draws",
-        "assumptions": ["draws lie in [0,1) (checked on every recorded draw by the model run)"],
+        "components": [("repair", 400, 12000), ("dem", 300, 10000)],
+        "rule": OPS_RULE + "at least one coordinate violates a bound",
+        "explanation": "theorems: repair is the identity on non-violating coordinates and each strategy's placement; correspondence: bitwise equality of the repaired matrix with the Lean model executed at Float on the same recorded draws; DEM.do compared with de_mutation under the same draws",
+        "assumptions": ["draws in [0,1)"],
+    },
+    "C12": {
+        "components": [("dex", 400, 12000), ("mask", 300, 10000), ("variant", 200, 6000)],
+        "rule": OPS_RULE + "every mutant coordinate differs from the target's so the mask is observable (dex)",
+        "explanation": "theorems trial_coord_cases, forceOne_any, bin_cr_one, bin_cr_zero_exactly_one, exp_cr_one, exp_cr_zero, expRow_block; correspondence: masks and trials bit-equal to the model on the recorded draws",
+        "assumptions": ["draws in [0,1)"],
     },
 }
